@@ -274,6 +274,11 @@ def run_fill(model, sc: Scenario, ctx=None):
 
     def np_array(ev, a, k):
         v = a[0]
+        dt = k.get("dtype")
+        if dt is not None and not any(t in repr(dt).lower() for t in ("int", "float", "double")):
+            raise AnalysisError("numpy.array with this dtype is not modelled in fill_cij")
+        if dt is not None and "int" in repr(dt).lower() and isinstance(v, Tup) and all(is_sym(i) and as_sym(i).is_Integer for i in v.items):
+            return ArrV(0, (len(v.items),), cells={(i,): as_sym(x) for i, x in enumerate(v.items)})      # an index vector
         if isinstance(v, ArrV):
             return v
         if isinstance(v, Tup) and v.items and all(isinstance(i, ArrV) and len(i.shape) == 1 for i in v.items):
